@@ -2,7 +2,7 @@
    The OCaml driver (ocaml/modelrun.ml) and the in-Coq cross-check both go through dispatch. *)
 From RcProxy Require Import Base.Bytes Base.Sx Base.Dec Gen.Generated Spec.KeySlot Model.Crc16
   Spec.RespGrammar Spec.SplitSpec Spec.CommandSpec
-  Spec.RouteSpec Model.RespBuf Model.Commands Model.ClientCodec Model.ClientFeed Model.ServerCodec Model.Route Model.AuthIp Model.Cluster Model.Proxy.
+  Spec.RouteSpec Model.RespBuf Model.Commands Model.ClientCodec Model.ClientFeed Model.ServerCodec Model.Route Model.AuthIp Model.Cluster Model.Proxy Model.Buffers.
 
 Definition e_hash (a : sx) : sx :=
   match a with SB k => sN (Hash k) | _ => bad end.
@@ -928,6 +928,145 @@ Definition o_loop (a : sx) : sx :=
   | _ => bad
   end.
 
+
+(* ---- I/O buffers (C19) ----
+   input ( kind param (op ...) ): kind 0 = ring.New(param); 1 = elastic.RingBuffer; 2 = elastic.New(param)
+   ops: (0 bytes cap0) Write   [cap0 = capacity of the pooled ring when this call instantiates it, else -1]
+        (1 n) Peek(n)  (2 n) Discard(n)  (3 k) Read(make([]byte,k))  (4) Reset
+        (5 (bytes ...) cap0) Writev   (6 c cap0) WriteByte   (7) ReadByte
+   observation after every op: ( result buffered capacity empty ) *)
+Inductive bufst := BRing (r : ring) | BERing (r : ering) | BEBuf (b : ebuf).
+
+Definition nonempty_chunks (l : list bytes) : sx := SL (map SB (filter (fun b => negb (Nat.eqb (length b) 0)) l)).
+Definition zcap (z : Z) : nat := if (z <? 0)%Z then 0%nat else Z.to_nat z.
+
+Definition buf_obs (st : bufst) (res : sx) : sx :=
+  match st with
+  | BRing r => SL [res; snat (ring_buffered r); snat (length (rg_buf r)); sbool (rg_empty r)]
+  | BERing r => SL [res; snat (er_buffered r); snat (er_len r); sbool (er_is_empty r)]
+  | BEBuf b => SL [res; snat (eb_buffered b); snat (er_len (eb_ring b)); sbool (eb_is_empty b)]
+  end.
+
+Definition sopt_bytes (o : option bytes) : sx := match o with Some d => SB d | None => SL [SB (bs "empty")] end.
+
+Definition buf_step (st : bufst) (op : sx) : option (bufst * sx) :=
+  match st, op with
+  | BRing r, SL [SN 0%Z; SB p; SN _] => Some (BRing (ring_write r p), snat (length p))
+  | BERing r, SL [SN 0%Z; SB p; SN c] => Some (BERing (er_write r (zcap c) p), snat (length p))
+  | BEBuf b, SL [SN 0%Z; SB p; SN c] => Some (BEBuf (eb_write b (zcap c) p), snat (length p))
+  | BRing r, SL [SN 1%Z; SN n] => let '(h, t) := ring_peek r (0 <? n)%Z (Z.to_nat n) in Some (st, nonempty_chunks [h; t])
+  | BERing r, SL [SN 1%Z; SN n] => let '(h, t) := er_peek r (0 <? n)%Z (Z.to_nat n) in Some (st, nonempty_chunks [h; t])
+  | BEBuf b, SL [SN 1%Z; SN n] => Some (st, nonempty_chunks (eb_peek b (0 <? n)%Z (Z.to_nat n)))
+  | BRing r, SL [SN 2%Z; SN n] => let '(d, r') := ring_discard r (Z.to_nat n) in Some (BRing r', snat d)
+  | BERing r, SL [SN 2%Z; SN n] => let '(d, r') := er_discard r (Z.to_nat n) in Some (BERing r', snat d)
+  | BEBuf b, SL [SN 2%Z; SN n] => let '(d, b') := eb_discard b (Z.to_nat n) in Some (BEBuf b', snat d)
+  | BRing r, SL [SN 3%Z; SN k] => let '(o, r') := ring_read r (Z.to_nat k) in Some (BRing r', sopt_bytes o)
+  | BERing r, SL [SN 3%Z; SN k] => let '(o, r') := er_read r (Z.to_nat k) in Some (BERing r', sopt_bytes o)
+  | BEBuf b, SL [SN 3%Z; SN k] => let '(d, b') := eb_read b (Z.to_nat k) in Some (BEBuf b', SB d)
+  | BRing r, SL [SN 4%Z] => Some (BRing (ring_reset r), SN 0%Z)
+  | BERing r, SL [SN 4%Z] => Some (BERing (er_reset r), SN 0%Z)
+  | BEBuf b, SL [SN 4%Z] => Some (BEBuf (eb_reset b 0), SN 0%Z)
+  | BEBuf b, SL [SN 5%Z; SL bss; SN c] =>
+      match map_opt get_b bss with
+      | Some l => Some (BEBuf (eb_writev b (zcap c) l), snat (length (concat l)))
+      | None => None
+      end
+  | BRing r, SL [SN 6%Z; SN c; SN _] =>
+      match ring_write_byte r (Z.to_N c) with Some r' => Some (BRing r', SN 0%Z) | None => Some (st, SL [SB (bs "panic")]) end
+  | BERing r, SL [SN 6%Z; SN c; SN c0] =>
+      match ring_write_byte (er_instance r (zcap c0)) (Z.to_N c) with
+      | Some r' => Some (BERing (Some r'), SN 0%Z) | None => Some (st, SL [SB (bs "panic")]) end
+  | BRing r, SL [SN 7%Z] =>
+      let '(o, r') := ring_read_byte r in Some (BRing r', match o with Some c => sN c | None => SL [SB (bs "empty")] end)
+  | BERing (Some r), SL [SN 7%Z] =>
+      let '(o, r') := ring_read_byte r in Some (BERing (er_done (Some r')), match o with Some c => sN c | None => SL [SB (bs "empty")] end)
+  | BERing None, SL [SN 7%Z] => Some (st, SL [SB (bs "empty")])
+  | _, _ => None
+  end.
+
+Definition is_panic (res : sx) : bool := match res with SL [SB m] => beqb m (bs "panic") | _ => false end.
+Fixpoint buf_run (st : bufst) (ops : list sx) : list sx :=
+  match ops with
+  | [] => []
+  | op :: rest =>
+      match buf_step st op with
+      | Some (st', res) => if is_panic res then [buf_obs st' res] else buf_obs st' res :: buf_run st' rest
+      | None => [SL [SB (bs "bad-op")]]
+      end
+  end.
+
+Definition e_buf (a : sx) : sx :=
+  match a with
+  | SL [SN kind; SN param; SL ops] =>
+      if Z.eqb kind 0 then SL (buf_run (BRing (ring_new (Z.to_nat param))) ops)
+      else if Z.eqb kind 1 then SL (buf_run (BERing None) ops)
+      else SL (buf_run (BEBuf (eb_new (Z.to_nat param))) ops)
+  | _ => bad
+  end.
+
+(* specification oracle, independent of the buffer models: an ideal FIFO byte queue run over the same
+   operations must explain every result the implementation returned *)
+Definition chunks_concat (c : sx) : option bytes :=
+  match c with SL l => match map_opt get_b l with Some bs => Some (concat bs) | None => None end | _ => None end.
+
+Fixpoint fifo_check (exact : bool) (q : bytes) (ops obs : list sx) : sx :=
+  match ops, obs with
+  | [], [] => ok
+  | op :: ops', SL [res; SN buffered; _; SN emp] :: obs' =>
+      let next (q' : bytes) :=
+        if negb (Z.eqb buffered (Z.of_nat (length q'))) then viol "buffered-length-not-exact" [op; snat (length q'); SN buffered]
+        else if negb (Bool.eqb (negb (Z.eqb emp 0)) (Nat.eqb (length q') 0)) then viol "is-empty-wrong" [op]
+        else fifo_check exact q' ops' obs' in
+      match op with
+      | SL [SN 0%Z; SB p; _] => next (q ++ p)
+      | SL [SN 5%Z; SL bss; _] => match map_opt get_b bss with Some l => next (q ++ concat l) | None => bad end
+      | SL [SN 6%Z; SN c; _] =>
+          match res with SL [SB _] => viol "write-byte-panics" [op] | _ => next (q ++ [Z.to_N c]) end
+      | SL [SN 1%Z; SN n] =>
+          (* rings return exactly the oldest min(n, buffered) bytes; the mixed buffer returns whole
+             chunks: the oldest bytes, at least min(n, buffered) of them (its users write what they
+             get and discard what was written) *)
+          let want := if (0 <? n)%Z then firstn (Z.to_nat n) q else q in
+          match chunks_concat res with
+          | Some got =>
+              if exact then
+                if beqb got want then next q else viol "peeked-bytes-are-not-the-oldest-bytes-written" [op; SB want; SB got]
+              else
+                if (beqb got (firstn (length got) q) && (length want <=? length got)%nat)%bool then next q
+                else viol "peeked-bytes-are-not-the-oldest-bytes-written" [op; SB want; SB got]
+          | None => bad
+          end
+      | SL [SN 2%Z; SN n] =>
+          let k := if (0 <? n)%Z then Nat.min (Z.to_nat n) (length q) else 0%nat in
+          match res with
+          | SN d => if Z.eqb d (Z.of_nat k) then next (skipn k q) else viol "discarded-count-wrong" [op; snat k; SN d]
+          | _ => bad
+          end
+      | SL [SN 3%Z; SN n] =>
+          let k := Nat.min (Z.to_nat n) (length q) in
+          match res with
+          | SB got => if beqb got (firstn k q) then next (skipn k q) else viol "read-bytes-are-not-the-oldest-bytes-written" [op; SB (firstn k q); SB got]
+          | SL [SB _] => if Nat.eqb (length q) 0 then next q else viol "read-reports-empty-with-bytes-buffered" [op]
+          | _ => bad
+          end
+      | SL [SN 4%Z] => next []
+      | SL [SN 7%Z] =>
+          match q, res with
+          | c :: q', SN got => if Z.eqb got (Z.of_N c) then next q' else viol "read-bytes-are-not-the-oldest-bytes-written" [op]
+          | [], SL [SB _] => next q
+          | _, _ => viol "read-byte-wrong" [op]
+          end
+      | _ => bad
+      end
+  | _, _ => viol "fewer-observations-than-operations" []
+  end.
+
+Definition o_buf (a : sx) : sx :=
+  match a with
+  | SL [SL [SN kind; _; SL ops]; SL obs] => fifo_check (negb (Z.eqb kind 2)) [] ops obs
+  | _ => bad
+  end.
+
 Definition entries : list (bytes * (sx -> sx)) :=
   [ (bs "hash", e_hash);
     (bs "keyslot", e_keyslot);
@@ -949,7 +1088,9 @@ Definition entries : list (bytes * (sx -> sx)) :=
     (bs "cparse", e_cparse);
     (bs "o_cluster", o_cluster);
     (bs "loop", e_loop);
-    (bs "o_loop", o_loop) ].
+    (bs "o_loop", o_loop);
+    (bs "buf", e_buf);
+    (bs "o_buf", o_buf) ].
 
 Definition dispatch (name : bytes) (a : sx) : sx :=
   match assoc_b name entries with
